@@ -304,6 +304,57 @@ fn inflate_with_dict(c: &mut Case, row: &hfam::DictRow, stream: &[u8], env: &Env
             Rs::inflateEnd(s.p());
             return Err(format!("stream end after {pos} of {} bytes", stream.len()));
         }
+        // the decoder recycled for the same stream (inflateResetKeep, then inflateReset): the dictionary installed for
+        // the previous stream is forgotten, the new stream asks for it again and reproduces the data
+        if has_fdict && in_chunk == AMPLE && room == AMPLE {
+            for keep in [true, false] {
+                let r = if keep { Rs::inflateResetKeep(s.p()) } else { Rs::inflateReset(s.p()) };
+                let what = if keep { "inflateResetKeep" } else { "inflateReset" };
+                if r != Z_OK {
+                    Rs::inflateEnd(s.p());
+                    return Err(format!("{what} returned {}", rc_name(r)));
+                }
+                let mut out2: Vec<u8> = vec![];
+                let mut pos2 = 0usize;
+                let mut asked = false;
+                for _ in 0..4 {
+                    let room_n = input.len() + 1024;
+                    let pin = env.ain.put(&stream[pos2..], true);
+                    let pout = env.aout.at_end(room_n);
+                    s.z.next_in = pin;
+                    s.z.avail_in = (stream.len() - pos2) as u32;
+                    s.z.next_out = pout;
+                    s.z.avail_out = room_n as u32;
+                    c.exec();
+                    let ret = Rs::inflate(s.p(), Z_NO_FLUSH);
+                    pos2 = stream.len() - s.z.avail_in as usize;
+                    out2.extend_from_slice(std::slice::from_raw_parts(pout, room_n - s.z.avail_out as usize));
+                    if ret == Z_NEED_DICT && !asked {
+                        asked = true;
+                        if s.z.adler as u32 != cksum::adler32(1, dict) {
+                            Rs::inflateEnd(s.p());
+                            return Err(format!("after {what}: Z_NEED_DICT reports id {:#x}", s.z.adler));
+                        }
+                        let dp = env.aux.put(dict, true);
+                        let r = Rs::inflateSetDictionary(s.p(), dp, dict.len() as u32);
+                        if r != Z_OK {
+                            Rs::inflateEnd(s.p());
+                            return Err(format!("after {what}: inflateSetDictionary returned {}", rc_name(r)));
+                        }
+                        continue;
+                    }
+                    if ret == Z_STREAM_END {
+                        break;
+                    }
+                    Rs::inflateEnd(s.p());
+                    return Err(format!("after {what} the same stream with FDICT: inflate returned {} (dictionary requested again: {asked})", rc_name(ret)));
+                }
+                if !asked || out2 != *input {
+                    Rs::inflateEnd(s.p());
+                    return Err(format!("after {what} the decoder did not ask for the dictionary again ({asked}) or reproduced {} of {} bytes", out2.len(), input.len()));
+                }
+            }
+        }
         Rs::inflateEnd(s.p());
         Ok(())
     }
